@@ -73,7 +73,9 @@ Unfold(n, exiting) ==
           children |-> <<>>, method |-> "", idx |-> 0]
     [] n.k = "stack" ->
          [id |-> n.id, k |-> "stack", async |-> n.async, exiting |-> exiting, frames |-> <<>>, hasinner |-> FALSE,
-          children |-> UnfoldCbs(CbList(n.ops), n.async), method |-> "", idx |-> 0]
+          \* while the stack is unwinding (exiting), the callbacks already popped (n.popped, innermost first) are gone;
+          \* the remaining ones are still registered -- and are NOT exiting themselves
+          children |-> UnfoldCbs(SubSeq(CbList(n.ops), 1, Len(CbList(n.ops)) - n.popped), n.async), method |-> "", idx |-> 0]
 
 ---------------------------------------------------------------------------
 Init == tid \in 1..Len(Given) /\ done = FALSE
@@ -95,7 +97,7 @@ RECURSIVE CountRegs(_, _, _)
 CountRegs(ops, i, n) == IF i > Len(ops) THEN n
                         ELSE IF ops[i].op \in {"pop_all", "close"} THEN CountRegs(ops, i + 1, 0)
                         ELSE CountRegs(ops, i + 1, n + 1)
-OneChildPerCallback == Root.k = "stack" => Len(Expected.children) = CountRegs(Root.ops, 1, 0)
+OneChildPerCallback == Root.k = "stack" => Len(Expected.children) = CountRegs(Root.ops, 1, 0) - Root.popped
 
 Emit == done => PrintT(<<"EMIT", ToJson([tid |-> tid, expected |-> Expected])>>)
 =============================================================================
